@@ -96,7 +96,9 @@ def grid(tier):
     for st in out:
         if not st['server'].get('blackhole'):
             st['server']['layer'] = ('none', 'after_timeout', 'before_timeout')[k % 3]
-            st['server']['earlier_conns'] = (0, 0, 1, 0, 2)[k % 5]      # the connection under test is the server's first, second or third
+            st['server']['earlier_conns'] = (0, 0, 1, 0, 2)[k % 5]
+            if k % 4 == 3 and not st.get('same_tick'):
+                st['client']['idle_ms'] = 5000      # the channel was connected five seconds before its first call      # the connection under test is the server's first, second or third
             k += 1
     return out
 
